@@ -62,6 +62,10 @@ def make_step_fn(name, argnames, defaults, impl):
 class RecordingCache(MemoryCache):
     """The real MemoryCache code path, with every backend call logged."""
 
+    def __len__(self):
+        # a SIZED backend (empty = falsy): labrea must tell "no cache given" from "an empty cache" by identity, not by truth
+        return len(self.sets)
+
     def __init__(self, name):
         super().__init__()
         self.name = name
